@@ -20,8 +20,10 @@ TRUSTED = [
     "from the real run; SHA-512 and the SRP arithmetic are recomputed in Lean)",
     "ASSUMED, not proved (DESIGN 2.2): SRP-6a is a PAKE for A != 0 mod N, i.e. only a party that knows the setup "
     "code can produce the expected proof M for a non-degenerate A; SHA-512/HKDF one-wayness, ChaCha20-Poly1305 and "
-    "Ed25519 unforgeability.  The Dolev-Yao layer (C01_symbolic) was not built: what is proved is the gate (every "
-    "O1/O2/O3 needs a good M3 in the current exchange, over all histories), the algebra of A = 0 mod N and its rejection",
+    "Ed25519 unforgeability.  These enter C01_symbolic only as the shape of a free term algebra "
+    "(lean/Proofs/PairSetupSym.lean: attacker alone, no honest controller in the picture, a separate symbolic "
+    "accessory that is not tied to the code by the differential run); the concrete theorems are the gate over all "
+    "histories (every O1/O2/O3 needs a good M3 in the current exchange), the algebra of A = 0 mod N and its rejection",
     "harness/ref/srp_client.py + pairsetup_client.py + tlv8.py: independent reference (oracle, attacker computations)",
 ]
 
